@@ -33,14 +33,15 @@ where
     T: Hash + Eq + Clone + Ord + Display + Send + Sync,
     A: Clone + Send + Sync,
 {
-    let node_names_count = communities
-        .iter()
-        .flatten()
-        .filter(|n| graph.get_node((*n).clone()).is_some())
-        .count();
-    let sum_names = communities.iter().map(|hs| hs.len()).sum::<usize>();
-    let all_nodes_len = graph.get_all_nodes().len();
-    node_names_count == all_nodes_len && sum_names == all_nodes_len
+    // every name must be a node of the graph and appear in exactly one community ...
+    let mut seen: HashSet<&T> = HashSet::new();
+    for name in communities.iter().flatten() {
+        if graph.get_node(name.clone()).is_none() || !seen.insert(name) {
+            return false;
+        }
+    }
+    // ... and every node of the graph must have been named
+    seen.len() == graph.get_all_nodes().len()
 }
 
 /**
